@@ -53,6 +53,9 @@ CLAIMED = {
  'C09': dict(level='model_checking', technique='bounded exploration of thread schedules: the scheduling choice at every library system call and lock acquire is a solver-chosen hole (pre-emption bounded), tree states symbolic; result compared with the sequential reference, then rebuild and clean',
              text='2-3 worker threads call build_file / subbuild on one builder under a baton scheduler whose choices are engine holes; every schedule up to the pre-emption bound is explored, for each: no deadlock, no spurious exception, values and tree equal the sequential reference, the unchanged rebuild re-executes nothing that succeeded and clean removes everything the build created.',
              note='Trusted: scheduler (switches only at environment calls and lock operations), environment model, reference model, z3.'),
+ 'C08': dict(level='model_checking', technique='bounded symbolic execution (z3) of duplicate placements against the reference, and bounded exploration of two-thread schedules (scheduling choices are solver-chosen holes)',
+             text="Sequential placements of a duplicate build_file path / subbuild key (symbolic int/float arguments) run through the reference comparison with per-key execution counts and the rule that a caller which caught a rejection is re-executed in the next build; two threads issuing the same key are explored under every schedule up to the pre-emption bound: exactly one winner, one RuntimeError, one execution, the winner's output and record intact.",
+             note='Trusted: scheduler, environment model, reference model, z3.'),
 }
 NA_REASON = 'check not built yet in this round (work in progress; see DESIGN.md section 12)'
 
